@@ -13,16 +13,16 @@ CFG = P(
         bounds={
             "quick": "save->load: dims {1..8}x{1..5} u {64x1,1x64,63x2,33x3,17x17} (all widths mod 4) x alpha x channel width {8,16,32,64} x 6 patterns x {PPM,BMP,PNG}, plus boundary dims "
                      "{255x1,256x1,257x2,1x257,2x256,65536x1,1x65537,300x211} x alpha x {8,16}-bit; every 8-bit output file decoded by the Python decoders; "
-                     "374 container variants (180 core x 20 dims x 3 patterns; 194 extra - header whitespace forms, P7 line order, 22 MAXVAL boundary values x 4 containers, wide RGB, "
+                     "320 container variants (180 core x 20 dims x 3 patterns; 140 extra - header whitespace forms, P7 line order, 22 MAXVAL boundary values x 4 containers, wide RGB, "
                      "pixel-array gaps, trailing bytes - x 6 dims x 2 patterns), each loaded through 11 deliveries (memory stream, 1- and 7-byte short reads, real file via "
                      "Image(FILE*) buffered/unbuffered, Image(const char*), Image(std::string), stdin, non-seekable stream, pipe, stdin pipe) and re-saved as PPM/BMP and loaded again; "
-                     "every prefix of every file of 8 small dims (core variants; extra variants over 2 dims; phosg's own PPM/BMP output), each prefix also from a non-seekable short-read stream and as a "
-                     "one-off EINTR read error at the same offset; call histories: every ordered pair (a,b) of 60 save/load calls run as a,b,a in a fresh process; object states: 15 states x 15 x "
+                     "every prefix of every file of 8 small dims (core variants; extra variants over 2 dims; phosg's own PPM/BMP output), each prefix also from a non-seekable short-read stream and from a "
+                     "medium failing with EIO from the same offset on; call histories: every ordered pair (a,b) of 59 save/load calls run as a,b,a in a fresh process; object states: 15 states x 15 x "
                      "{copy-assign, move-assign, swap} + self-assignment/copy/move construction/set_channel_width/set_has_alpha per state; APIs: 9 images x 3 formats x 14 ways to save x contexts, "
-                     "9 variants x 2 dims x 3 stream kinds x 5 contexts, raw-data constructors, 28 don't-care probes",
+                     "9 variants x 2 dims x 3 stream kinds x 5 contexts, raw-data constructors, 30 don't-care probes",
             "thorough": "save->load: dims {1..64}x{1,2,3,5} u {1..8}x{1..64} u {17x17,33x47,63x61,64x64} x alpha x width x 6 patterns x 3 formats + 16 boundary dims up to 65537x2 and 1000x1000, all 8-bit files decoded "
-                        "independently; 180 core variants x 221 dims x 3 patterns + 194 extra x 12 dims x 3 patterns, 11 deliveries + re-save each; every prefix of every file of 12 dims including 64x1, 63x2, 33x3, 13x9; "
-                        "call histories: every ordered triple of the 60 calls; object states: every (dst, src1, src2) triple x 3 transfer kinds; APIs: full product of ways to save x contexts",
+                        "independently; 180 core variants x 221 dims x 3 patterns + 140 extra x 12 dims x 3 patterns, 11 deliveries + re-save each; every prefix of every file of 12 dims including 64x1, 63x2, 33x3, 13x9; "
+                        "call histories: every ordered pair of the 59 calls followed by each of 12 observing calls (a, b, c); object states: every (dst, src1, src2) triple x 3 transfer kinds; APIs: full product of ways to save x contexts",
         },
         explanation="E-ENUM over the real Image::save/Image(FILE*) with exact-size heap copies under ASan; risky loads run in forked children so a heap overflow is a recorded "
                     "outcome, not the end of the shard; truncation = fault enumeration over every prefix length (memory stream, non-seekable stream, read error); call histories run in fresh forked "
@@ -35,7 +35,7 @@ CFG = P(
             "whitespace after MAXVAL, BI_BITFIELDS without an alpha mask (52-byte header), empty (0xN) images, the moved-from object, files with malformed (non-prefix) headers, unknown signatures, "
             "images embedded at a non-zero stream position, raw-data constructors on short files, channel_width defaulted to 0 in the raw-data constructors, values produced by set_channel_width/set_has_alpha "
             "(only that their result survives save -> load)",
-            "truncation means a prefix of a valid file, delivered by a memory stream or a non-seekable stream, or a single failed read (EINTR) on the complete file; arbitrary corrupted headers are outside the statement",
+            "truncation means a prefix of a valid file, delivered by a memory stream or a non-seekable stream, or a medium that fails with EIO from that offset on; arbitrary corrupted headers are outside the statement",
             "a repeated save in one process may produce a different encoding as long as it is valid (recorded as an outcome class, never a violation by itself)",
             "zlib's inflate (through Python's zlib module) is trusted; the chunk CRC is computed by a table-driven implementation written in the oracle and cross-checked with zlib.crc32",
         ],
@@ -47,7 +47,7 @@ CFG = P(
                    "pixel by pixel with an independently regenerated pattern. Every supported input variant (P5/P6/P7 tuple types, header whitespace forms and line orders, MAXVAL boundaries, BMP 24/32 BI_RGB, BI_BITFIELDS "
                    "with all 24 byte-mask permutations, both row orders, 40/52/56/108/124-byte headers, pixel-array gaps) is generated by code that shares nothing with phosg, validated by the Python decoders, and loaded "
                    "under ASan through every loading overload and stream kind (memory, short reads, real files, pipes, stdin); every prefix length of every small file is loaded and must throw or decode identically with no "
-                   "sanitizer report and a balanced heap. Every ordered pair (thorough: triple) of 60 boundary save/load calls is executed as one call history in a fresh process, every ordered pair of 15 object states "
+                   "sanitizer report and a balanced heap. Every ordered pair (thorough: every pair followed by each of 12 observing calls) of 59 boundary save/load calls is executed as one call history in a fresh process, every ordered pair of 15 object states "
                    "is copy-assigned, move-assigned and swapped and the result saved, and every save overload/stream kind is exercised in a catch handler, during stack unwinding and under foreign errno values. "
                    "Within these bounds the result is a complete enumeration, not a sample.",
         level_note="Trusted: zlib inflate, glibc fmemopen/open_memstream/fopencookie, the six pixel patterns as representatives of 'all pixel contents'. Not covered: dimensions above 65537x2 / 1000x1000, "
